@@ -146,7 +146,8 @@ def main():
         "notes": ("Levels and what each check covers are explained per property in DESIGN.md §4; known findings in "
                   "known_findings.json. Beyond the listed properties the specification also covers the wire/pad matching "
                   "stage and the composition of MainEvent::avalanches() (./check XMATCH quick|thorough, Matching.tla) and "
-                  "the sequencer / ODB programs (./check XSEQ quick|thorough, SeqCsv.tla); these extension checks follow the "
+                  "the sequencer / ODB programs (./check XSEQ quick|thorough, SeqCsv.tla) and the choice of the primary-vertex "
+                  "tracks (./check XVSEED quick|thorough, VertexSeed.tla); these extension checks follow the "
                   "same exit-code contract, write evidence under evidence/ext/ and are described in DESIGN.md §4b."),
     }
     with open(os.path.join(VERIF, "MANIFEST.json"), "w") as f:
